@@ -5,7 +5,9 @@ import (
 	"fmt"
 	"io"
 	"math/rand/v2"
+	"net/http/httptest"
 	"strings"
+	"sync"
 	"testing"
 	"time"
 
@@ -226,6 +228,79 @@ func (constReader) Read(p []byte) (int, error) {
 	return len(p), nil
 }
 
+// registryChurn: many goroutines handshake and close sessions at once; at the end (and after
+// each burst) the table, the count and the live sessions must agree.
+func registryChurn(r *rep.Report, bursts int) {
+	so := &config.ServerOptions{}
+	so.SetPingInterval(time.Hour)
+	eng := engine.NewServer(so)
+	defer eng.Close()
+	for b := 0; b < bursts; b++ {
+		var wg sync.WaitGroup
+		var mu sync.Mutex
+		live := map[string]engine.Socket{}
+		for g := 0; g < 32; g++ {
+			wg.Add(1)
+			go func(g int) {
+				defer wg.Done()
+				for i := 0; i < 12; i++ {
+					req := httptest.NewRequest("GET", "http://h/engine.io/?EIO=4&transport=polling", nil)
+					rec := httptest.NewRecorder()
+					eng.ServeHTTP(rec, req)
+					body := rec.Body.String()
+					k := strings.Index(body, `"sid":"`)
+					if k < 0 {
+						continue
+					}
+					sid := body[k+7:]
+					sid = sid[:strings.Index(sid, `"`)]
+					s, ok := eng.Clients().Load(sid)
+					if !ok {
+						mu.Lock()
+						live["missing:"+sid] = nil
+						mu.Unlock()
+						continue
+					}
+					if (g+i)%3 != 0 {
+						s.Close(true)
+					} else {
+						mu.Lock()
+						live[sid] = s
+						mu.Unlock()
+					}
+				}
+			}(g)
+		}
+		wg.Wait()
+		time.Sleep(20 * time.Millisecond)
+		r.Obs("churn_bursts", 1)
+		r.Obs("churn_sessions", 32*12)
+		n := 0
+		for sid, s := range live {
+			if s == nil {
+				r.Violationf("c04-live-session-unreachable", nil, "churn: a session just created (%s) was not reachable under its id", sid)
+				return
+			}
+			if s.ReadyState() == "open" {
+				n++
+				if _, ok := eng.Clients().Load(sid); !ok {
+					r.Violationf("c04-live-session-unreachable", map[string]any{"lane": "concurrent handshake/close churn"}, "churn burst %d: open session %s is not in the client table (table %d, count %d)", b, sid, eng.Clients().Len(), eng.ClientsCount())
+					return
+				}
+			}
+		}
+		if eng.Clients().Len() != n || eng.ClientsCount() != uint64(n) {
+			r.Violationf("c04-count-drift", map[string]any{"lane": "concurrent handshake/close churn"}, "churn burst %d: %d sessions are open, table has %d entries, count %d", b, n, eng.Clients().Len(), eng.ClientsCount())
+			return
+		}
+		for _, s := range live {
+			s.Close(true)
+		}
+		time.Sleep(5 * time.Millisecond)
+	}
+	r.Case("registry-churn", true)
+}
+
 func TestC04(t *testing.T) {
 	r := rep.New(t, "C04")
 	defer r.Flush()
@@ -253,6 +328,7 @@ func TestC04(t *testing.T) {
 			r.Violation(key, msg, c)
 		}
 	}
+	registryChurn(r, r.N(4*6, 16*60)/max(r.Lanes, 1))
 	per := r.N(16*3000, 16*150000) / 16
 	idStorm(r, "base64id", 16, per, func() (string, error) { return utils.Base64Id().GenerateId() })
 	// degenerate random source
